@@ -19,6 +19,7 @@
    C13_refbundle: for a non-fragment bundle the status report built by new_status_report prints the bundle's ID
    (for a fragment new_status_report is `unimplemented!()`; DESIGN.md section 11).   Statements only. *)
 From BP7 Require Import Base.Prelude Base.Decimal Base.Str Gen.Consts Model.Types Model.EidText Model.BundleId Model.AdminRecord Proofs.BundleIdProofs Proofs.ReportRefProofs.
+From BP7 Require Import Model.Api Proofs.ApiProofs Proofs.BuilderRoute.
 
 Definition C13_full : Prop := forall b1 b2, id_wf b1 = true -> id_wf b2 = true ->
   (bundle_id b1 = bundle_id b2 <-> ident b1 = ident b2).
@@ -75,6 +76,12 @@ Theorem C13_known_none_name_narrow : forall e1 e2, id_src_wf e1 = true -> id_src
   (e1 = Dtn ENDPOINT_URI_SCHEME_DTN s_none /\ e2 = eid_none) \/ (e2 = Dtn ENDPOINT_URI_SCHEME_DTN s_none /\ e1 = eid_none).
 Proof. exact print_inj. Qed.
 
+(* the ID does not depend on HOW the primary block was made: PrimaryBlockBuilder with every field handed to its setter builds the very
+   primary block the public fields describe (version 7, destination not dtn:none - the builder refuses that one), hence the same ID *)
+Theorem C13_builder_route : forall p cs, p_version p = DTN_VERSION -> p_dst p <> eid_none ->
+  exists p', primary_builder_build (builder_of p) = Some p' /\ bundle_id (mkbundle p' cs) = bundle_id (mkbundle p cs).
+Proof. exact builder_route_id. Qed.
+
 (* the reference printed by a status report about a (non-fragment) bundle is the bundle's ID *)
 Theorem C13_refbundle : forall b, has_fragmentation (b_primary b) = false ->
   exists sr, id_new_status_report b = Ok sr /\ id_refbundle sr = bundle_id b.
@@ -119,4 +126,5 @@ Print Assumptions C13_refuted_none_name.
 Print Assumptions C13_fragment_collides.
 Print Assumptions C13_known_none_name_narrow.
 Print Assumptions C13_refbundle.
+Print Assumptions C13_builder_route.
 Print Assumptions C13_received_report_refers.
